@@ -127,9 +127,10 @@ def scene_regime(rng, cfg, regime):
 
 def scene(rng, cfg):
     r = rng.random()
-    if r < (0.35 if cfg["features"] == "keypoints" else 0.12) and cfg["features"] != "bboxes":
+    flow = bool(cfg.get("flow"))
+    if not flow and r < (0.35 if cfg["features"] == "keypoints" else 0.12) and cfg["features"] != "bboxes":
         return scene_regime(rng, cfg, "fast_small")
-    if r < 0.30 and cfg["features"] == "bboxes":
+    if not flow and r < 0.30 and cfg["features"] == "bboxes":
         return scene_regime(rng, cfg, "thin")
     K = rng.randint(1, 4)
     Fr = rng.randint(2, 12)
@@ -140,6 +141,11 @@ def scene(rng, cfg):
             break
     else:
         pres = [[True] * K for _ in range(Fr)]
+    if flow:
+        # optical flow needs the animal in the new frame: no absences (late arrivals stay), everything inside
+        # the 160 x 160 synthetic frame (homes at 32 / 96, extent 16 x 20, drift <= 6)
+        first = [min((f for f in range(Fr) if pres[f][a]), default=0) for a in range(K)]
+        pres = [[f >= first[a] for a in range(K)] for f in range(Fr)]
     home = [(F((a % 2) * SPACING + 32), F((a // 2) * SPACING + 32)) for a in range(K)]
     kind = [rng.choice(["line", "arc", "jitter"]) for _ in range(K)]
     par = [(rng.random() * 6.28, rng.choice([-1, 1]) * rng.uniform(0.05, 0.12), rng.uniform(2, 6),
@@ -235,19 +241,36 @@ def evaluate(run, cases, fixes):
     model = core.coq_eval_sharded(PREAMBLE, terms, "fun x => x", RENDER, shard=60, jobs=12)
     # the same recorded data through C09's checked run: NaN pattern of every matrix = candidates in the model's
     # queues, answers valid / greedy runs (ties the queue bookkeeping, which the identity oracle cannot see)
-    checked = core.coq_eval_sharded(cc.PREAMBLE, [cc.case_term(cfg, hist, recs, fixes)
-                                                  for (cfg, hist), recs in zip(cases, recs_all)],
-                                    "run_case", "rresult", shard=60, jobs=12)
-    queue_bad = 0
-    for (cfg, hist), (mres, _) in zip(cases, checked):
-        for k, (o, chk, cands) in enumerate(mres):
-            if not (chk[1] and chk[2] and chk[3]):
+    checked = core.coq_eval_sharded(cc.XPREAMBLE, [cc.xcase_term(cfg, hist, recs, fixes)
+                                                   for (cfg, hist), recs in zip(cases, recs_all)],
+                                    "(fun r : result => r)", "rresult", shard=60, jobs=12)
+    queue_bad = xdis = 0
+    for (cfg, hist), recs, (mres, _) in zip(cases, recs_all, checked):
+        xout = [({"raises": o[1]} if o[0] == "raise" else [list(x) for x in o[1]]) for o, _, _ in mres]
+        if xout != [cc.out_pairs(r) for r in recs]:
+            xdis += 1
+            if len(run.proof_broken) < 8:
+                run.proof_broken.append(f"C10 scene: widened model {xout} != implementation "
+                                        f"{[cc.out_pairs(r) for r in recs]}; case {json.dumps(cc.hist_json(cfg, hist))[:1200]}")
+        for k, ((o, chk, cands), rec) in enumerate(zip(mres, recs)):
+            nan_ok = chk[1] or bool(cfg.get("flow"))
+            cands_ok = True
+            if "cands" in rec:
+                a, b = rec["cands"], cands
+                if cfg.get("flow") and cfg["lq"]:
+                    a, b = [sorted(x) for x in a], [sorted(x) for x in b]
+                cands_ok = a == b
+            if not (nan_ok and chk[2] and chk[3] and cands_ok) or chk[7]:
                 queue_bad += 1
                 if len(run.proof_broken) < 8:
                     run.proof_broken.append(f"C10 scene, frame {k}: nan_consistent={chk[1]} answer_valid={chk[2]} "
-                                            f"greedy_run={chk[3]}; case {json.dumps(cc.hist_json(cfg, hist))[:1200]}")
+                                            f"greedy_run={chk[3]} candidates_equal={cands_ok} max_tracks_selector={chk[7]}; "
+                                            f"case {json.dumps(cc.hist_json(cfg, hist))[:1200]}")
+    run.obligation("correspondence (widened model TrackerX.xrun, incl. max_tracks and the optical-flow tracker) on every scene",
+                   xdis == 0, f"{xdis} disagreements")
     run.obligation("model-side checks on every recorded call of every scene: NaN pattern of the score matrix = "
-                   "candidates the model's queues hold; answers valid; greedy answers are greedy runs",
+                   "candidates the model's queues hold (no flow); the candidates given to get_scores are the model's; answers "
+                   "valid; greedy answers are greedy runs; the max_tracks selector never fires (cap >= number of animals)",
                    queue_bad == 0, f"{queue_bad} calls")
     st = run.coverage.setdefault("steps", {})
 
@@ -272,7 +295,10 @@ def evaluate(run, cases, fixes):
                 known_all = all(d["animal"] in own for d in fr)
                 prem = (known_all or seen_all) and dominance_py(fr, rec["scores"].tolist(), own, m)
                 if k <= first_bad:      # after a failing call the owners (and the premise relative to them) are meaningless
-                    bump("premise_holds" if prem else "premise_fails")
+                    if cfg.get("flow"):
+                        bump("flow_premise_holds" if prem else "flow_premise_fails")
+                    else:
+                        bump("premise_holds" if prem else "premise_fails")
                     prem_all = prem_all and prem
                 if k < len(msteps) and msteps[k][1] != prem:
                     premise_mismatch += 1
@@ -287,6 +313,9 @@ def evaluate(run, cases, fixes):
         if not same:
             disagree += 1
         failing = None
+        if bad and cfg.get("flow") and not prem_all:
+            bump("flow_scenes_outside_premise")     # optical flow did not deliver dominated scores: outside the class
+            bad = None
         if bad:
             k, reason = bad
             sel = cc.selector_of(cfg, hist[k], recs[k], fixes)
@@ -310,6 +339,7 @@ def evaluate(run, cases, fixes):
         bump("feat_" + cfg["features"] + "+" + cfg["scoring"] + "/" + ("max" if cfg["red_max"] else "mean"))
         bump(f"window_{cfg['window']}")
         bump(f"animals_{len({d['animal'] for fr in hist for d in fr})}")
+        bump("x_flow", int(bool(cfg.get("flow")))); bump("x_max_tracks", int(cfg.get("max_tracks") is not None))
     return disagree, premise_mismatch
 
 
@@ -333,7 +363,8 @@ def check(run: core.Run) -> int:
 
     cases = [c for _, _, c in corpus_cases()]
     n_scenes = 3000 if thorough else 240
-    combos = [(lq, gr, feat) for lq in (False, True) for gr in (False, True) for feat in cc.FEATURES]
+    feats = cc.FEATURES + cc.FEATURES + [("keypoints", "euclidean_dist"), ("bboxes", "euclidean_dist")]
+    combos = [(lq, gr, feat) for lq in (False, True) for gr in (False, True) for feat in feats]
     worst_step = 0.0
     i = 0
     while len(cases) < n_scenes + len(KNOWN):
@@ -341,7 +372,11 @@ def check(run: core.Run) -> int:
         i += 1
         cfg = {"lq": lq, "greedy": gr, "window": rng.choice(WINDOWS), "red_max": rng.random() < 0.35,
                "threshold": rng.choice([F(0), F(1, 2)]), "features": feat, "scoring": scoring}
+        if rng.random() < 0.25:
+            cfg["flow"] = True                       # FlowShiftTracker on synthetic frames (blobs at the keypoints)
         hist, pres = scene(rng, cfg)
+        if rng.random() < 0.35:                      # a cap that is never binding: identity must not depend on it
+            cfg["max_tracks"] = len(pres[0]) + rng.randrange(0, 3)
         worst_step = max(worst_step, max_step(hist))
         cases.append((cfg, hist))
     disagree, premise_mismatch = evaluate(run, cases, fixes)
@@ -354,6 +389,10 @@ def check(run: core.Run) -> int:
     held, failed = st.get("premise_holds", 0), st.get("premise_fails", 0)
     run.obligation("non-vacuity: the dominance premise holds on the recorded matrices of the generated in-class scenes",
                    held > 0 and failed == 0, f"holds on {held}, fails on {failed} calls")
+    fh, ff = st.get("flow_premise_holds", 0), st.get("flow_premise_fails", 0)
+    run.obligation("non-vacuity (optical-flow tracker): the dominance premise holds on at least 95 % of the recorded matrices "
+                   "of the flow scenes (where Lucas-Kanade loses an animal the scene is outside the class)",
+                   fh > 0 and ff * 19 <= fh, f"holds on {fh}, fails on {ff} calls")
     run.coverage.update({
         "exhaustive": False, "scenes": len(cases), "disagreements": disagree,
         "largest_step_px": round(worst_step, 3), "spacing_px": SPACING,
@@ -370,7 +409,9 @@ def check(run: core.Run) -> int:
         "duck-typed instances stand for sleap_io.PredictedInstance",
     ]
     run.assumptions += ["spacing >= 20 x largest per-frame step, instance extent 16 x 20 px, window in {1,2,3,5}",
-                        "all instance scores above the new-track threshold", "max_tracks = None"]
+                        "all instance scores above the new-track threshold",
+                        "max_tracks = None or >= number of animals (never binding)",
+                        "optical-flow scenes: no absences; judged only where the recorded scores satisfy the dominance premise"]
     return run.finish()
 
 
